@@ -41,6 +41,7 @@ def run(tier):
         # (acquisitions tested before use, released on every failure path, realloc never over its argument; rules shared with C14)
         wprog = ir.Program(None, cfg)
         c14.leak_rules(wprog, rep, only_files=ANCHORED)
+        c14.double_free_rule(wprog, rep, only_files=tuple(ANCHORED) + ("http/https.c",))
         # "never aborts, never reads or writes outside its buffers": the reader's window invariant and launch preconditions (shared with C07)
         c07.reader_window(wprog, rep)
         # the connection under the request: a descriptor that was closed is never reported as the connected socket (shared with C06)
